@@ -141,7 +141,7 @@ def run(c, chk):
     nby = 0
     for f in mod.funcs.values():
         if len(f.params) >= 2 and f.params[0].ty == '%struct.cfg_t*' and f.params[1].ty == 'i8*' and f.param_names.get(f.params[1].name) == 'name':
-            if f.name in ('cfg_getopt', 'cfg_getopt_secidx', 'cfg_getopt_leaf', 'cfg_set_validate_func', 'cfg_set_validate_func2'):
+            if f.name in ('cfg_getopt', 'cfg_getopt_secidx', 'cfg_getopt_leaf', 'cfg_set_validate_func', 'cfg_set_validate_func2', 'cfg_getopt_array'):
                 continue
             if f.name in c.unknown_funcs:
                 continue      # not part of the by-name API the rule was confirmed on (a helper split off later)
